@@ -1,17 +1,28 @@
 /*@UNIT
 {
-  "property": "C17",
-  "unit": "gcm_encrypt",
-  "function": "csAesGcmEncrypt",
-  "source": "matrixssl/cipherSuite.c",
-  "keep_bodies": ["psEncodeVersionMaj", "psEncodeVersionMin", "psEncodeVersion"],
-  "replace": [],
-  "assumed": ["psAesReadyGCM (model: records nonce and AAD in ghosts)", "psAesEncryptGCM (model: records the call)", "psAesGetGCMTag (model: records the call)"],
-  "mode": "proof",
-  "why_proof": "all loops have constant bounds (8-byte sequence counter, 12-byte nonce copies), fully unwound with unwinding assertions",
-  "unwind": 14,
-  "native_replay": true,
-  "timeout": 600
+ "property": "C17",
+ "unit": "gcm_encrypt",
+ "function": "csAesGcmEncrypt",
+ "source": "matrixssl/cipherSuite.c",
+ "keep_bodies": [
+  "psEncodeVersionMaj",
+  "psEncodeVersionMin",
+  "psEncodeVersion"
+ ],
+ "replace": [],
+ "assumed": [
+  "psAesReadyGCM (model: records nonce and AAD in ghosts)",
+  "psAesEncryptGCM (model: records the call)",
+  "psAesGetGCMTag (model: records the call)"
+ ],
+ "mode": "proof",
+ "why_proof": "all loops have constant bounds (8-byte sequence counter, 12-byte nonce copies), fully unwound with unwinding assertions",
+ "unwind": 14,
+ "native_replay": true,
+ "timeout": 600,
+ "properties": [
+  "C10"
+ ]
 }
 @*/
 /* C17.U1 / C10  TLS 1.2 + DTLS 1.2 AES-GCM record sealing (RFC 5288 s.3, RFC 6347 4.1.2.1).
